@@ -68,18 +68,21 @@ func TestC10(t *testing.T) {
 	}
 	cfgs = append(cfgs, cfg{2, 7, 14, 0, 5}, cfg{2, 7, 3, 0, 2}, cfg{2, 7, 0, 6 * entry * 7, 5})
 	for r := 0; r < rounds; r++ {
-		for _, cf := range cfgs {
+		for ci, cf := range cfgs {
 			if cf.N > 1 && cf.P == 1 {
 				continue
 			}
-			c, err := cluster.Start(cluster.Options{Replicas: 1, Partitions: uint64(cf.P), Manual: true,
+			// every second cluster has small storage tables (a dozen entries each): fragments grow past one table, and the
+			// tables that eviction has drained of live keys stay around (nothing compacts them here)
+			T := []int{0, 1024}[(r+ci)%2]
+			c, err := cluster.Start(cluster.Options{Replicas: 1, Partitions: uint64(cf.P), Manual: true, TableSize: T,
 				DMaps: func(d *config.DMaps) {
 					d.Custom = map[string]config.DMap{"c10": {EvictionPolicy: config.LRUEviction, MaxKeys: cf.MaxKeys, MaxInuse: cf.MaxInuse, LRUSamples: cf.Samples}}
 				}}, cf.N)
 			if err != nil {
 				t.Fatal(err)
 			}
-			label := fmt.Sprintf("N=%d P=%d MaxKeys=%d MaxInuse=%d LRUSamples=%d", cf.N, cf.P, cf.MaxKeys, cf.MaxInuse, cf.Samples)
+			label := fmt.Sprintf("N=%d P=%d MaxKeys=%d MaxInuse=%d LRUSamples=%d T=%d", cf.N, cf.P, cf.MaxKeys, cf.MaxInuse, cf.Samples, T)
 			sum.Configs = append(sum.Configs, label)
 			seq++
 			w.Emit(trace.Ev{"t": "reset", "seq": seq, "cfg": label, "maxkeys": cf.MaxKeys, "maxinuse": cf.MaxInuse, "entry": entry, "window": 0})
@@ -95,6 +98,9 @@ func TestC10(t *testing.T) {
 				}
 			}
 			nput := 60 + rng.Intn(60)
+			if T > 0 {
+				nput = 240 + rng.Intn(80) // enough to fill and drain several tables per partition
+			}
 			evicted := false
 			for j := 0; j < nput; j++ {
 				var ki int
